@@ -12,7 +12,6 @@ struct nv_state
   uint64_t fx_ver;    /* ghost: `ver` for which m_fx is the value of the function at m_x (eval_ver == ver implies it; the
                          update_if_better(x, fx) solvers keep a stale sub-gradient, so only the value is consistent) */
   _Bool    xfin;      /* ghost: every coefficient of the point m_x is finite */
-  const void* m_function; /* ghost: identity of the function the state evaluates (solver_state_t::m_function) */
   uint64_t origin;    /* ghost: `ver` of the state whose point x0 this point was computed from as x0 + t*d */
   double   t;         /* ghost: that step t */
   _Bool    valid;     /* abstraction of valid(): value, point, gradient, constraint values all finite */
